@@ -59,6 +59,15 @@ TEMPLATES = [
      b"returns", b"(", b"stream", b"M", b")", b";", b"}", b"message", b"M", b"{", b"map", b"<", b"string", b",", b"E", b">", b"m", b"=", b"1", b";", b"oneof", b"o", b"{",
      b"int32", b"x", b"=", b"2", b";", b"}", b"}"],
     [b"edition", b"=", b"\"2023\"", b";", b"option", b"features", b".", b"field_presence", b"=", b"IMPLICIT", b";", b"message", b"M", b"{", b"int32", b"f", b"=", b"1", b";", b"}"],
+    # every kind of numbered declaration of one message, a plain field first (validation positions its errors at the tag node
+    # of the LATER of two clashing declarations, so the order of kinds matters)
+    [b"syntax", b"=", b"\"proto2\"", b";", b"message", b"M", b"{", b"optional", b"int32", b"a", b"=", b"1", b";", b"map", b"<", b"string", b",", b"string", b">", b"b", b"=", b"2", b";",
+     b"optional", b"group", b"G", b"=", b"3", b"{", b"optional", b"int32", b"c", b"=", b"1", b";", b"}", b"oneof", b"o", b"{", b"int32", b"x", b"=", b"4", b";", b"group", b"H", b"=", b"5", b"{", b"}", b"}",
+     b"extensions", b"10", b"to", b"20", b";", b"reserved", b"6", b",", b"7", b"to", b"9", b";", b"reserved", b"\"q\"", b";", b"}"],
+    [b"syntax", b"=", b"\"proto2\"", b";", b"message", b"M", b"{", b"oneof", b"o", b"{", b"int32", b"x", b"=", b"4", b";", b"group", b"H", b"=", b"5", b"{", b"}", b"}",
+     b"optional", b"group", b"G", b"=", b"3", b"{", b"}", b"map", b"<", b"int32", b",", b"M", b">", b"b", b"=", b"2", b";", b"repeated", b"M", b"a", b"=", b"1", b";",
+     b"enum", b"E", b"{", b"A", b"=", b"0", b";", b"B", b"=", b"1", b"[", b"deprecated", b"=", b"true", b"]", b";", b"}", b"}",
+     b"extend", b"M", b"{", b"optional", b"int32", b"e", b"=", b"10", b";", b"optional", b"group", b"X", b"=", b"11", b"{", b"}", b"}"],
 ]
 
 
@@ -85,6 +94,39 @@ def token_mutants(ctx, n_random):
             drop = set(pairs) if rep == 0 else {i for i in pairs if rng.chance(1, 2)}
             t = [x for i, x in enumerate(toks) if i not in drop and (i - 1) not in drop]
             out.append(b" ".join(t))
+        # every number dropped, kept or replaced by 0 (clashing tags: validation then walks the tag nodes)
+        for rep in range(40):
+            t = []
+            i = 0
+            while i < len(toks):
+                if i in pairs:
+                    k = rng.below(3)
+                    if k == 0:
+                        i += 2
+                        continue
+                    if k == 1:
+                        t += [b"=", b"0"]
+                        i += 2
+                        continue
+                t.append(toks[i])
+                i += 1
+            out.append(b" ".join(t))
+        # exactly two numbers dropped / zeroed, every pair (the smallest clash)
+        for a in range(len(pairs)):
+            for b in range(a + 1, len(pairs)):
+                for zero in (False, True):
+                    sel = {pairs[a], pairs[b]}
+                    t = []
+                    i = 0
+                    while i < len(toks):
+                        if i in sel:
+                            if zero:
+                                t += [b"=", b"0"]
+                            i += 2
+                            continue
+                        t.append(toks[i])
+                        i += 1
+                    out.append(b" ".join(t))
     for _ in range(n_random):
         t = list(rng.choice(TEMPLATES))
         for _ in range(rng.range(1, 3)):
@@ -108,6 +150,14 @@ def gen_inputs(ctx, n_random, n_soup, n_mutants):
     for f in FRAGS:
         out.append(f)
     out += token_mutants(ctx, n_mutants)
+    # a raw line break right after (or inside) every kind of escape prefix, then a later error: the line table must have
+    # seen the break whichever branch of the string scanner consumed it
+    for q in (b'"', b"'"):
+        for esc in (b"\\", b"\\x", b"\\X", b"\\x4", b"\\u", b"\\u1", b"\\u12", b"\\u123", b"\\U", b"\\U0010", b"\\1", b"\\12", b"\\123", b"\\q", b"a", b""):
+            for nl in (b"\n", b"\r\n", b"\n\n"):
+                for tail in (b" ; $", b" $ \n $", b""):
+                    out.append(b"option x = " + q + b"abc" + esc + nl + b"def" + q + tail)
+                    out.append(b"option x = " + q + b"abc" + esc + nl + q + tail)
     for _ in range(n_random):
         out.append(rng.bytes(rng.range(0, 24)))
     for _ in range(n_soup):
